@@ -93,7 +93,7 @@ fn main() {
                 "TX" | "IT" | "TS" | "TM" | "PU" | "PS" | "PF" | "PD" | "PN" => text::replay(&mut out, &f),
                 "AB" | "AS" => abi::run(&mut out, &mut rng, 0),
                 "TR" => tracing::replay(&mut out, &f),
-                "PO" | "MV" | "CK" | "LG" => chess::replay(&mut out, &f),
+                "PO" | "MV" | "CK" | "LG" | "PE" => chess::replay(&mut out, &f),
                 "FP" | "FR" | "BL" => fen::replay(&mut out, &f),
                 "BK" | "BKS" => chess::book(&mut out),
                 "GI" => iter::replay(&mut out, &f),
